@@ -93,11 +93,11 @@ PApply(s, v) ==
 \* x op v for the left operands the class documents: Python scalars with * / + - ** and sparse matrices with @
 \* (for scipy's spmatrix classes * is the matrix product as well).  Undef = outside the family:
 \* division by an entry that is zero or does not divide x, negative exponents, scalar +,-,/,** on sparse
-\* results, / and ** on AdArrays (non-integer derivatives).
+\* results, / and ** on AdArrays (non-integer derivatives), sparse * AdArray (rejected by AdArray itself).
 LeftOp(op, x, v) ==
   IF v.kind = "undef" THEN Undef
   ELSE IF x.kind = "sp" /\ op \in {"@", "*"} THEN
-    IF Cols(x.val) # Rows(v.val) THEN Undef
+    IF Cols(x.val) # Rows(v.val) \/ (op = "*" /\ v.kind = "ad") THEN Undef   \* AdArray rejects sparse * AdArray
     ELSE IF v.kind = "ad" THEN Val("ad", MatMul(x.val, v.val), MatMul(x.val, v.jac), "")
     ELSE Val(v.kind, MatMul(x.val, v.val), <<>>, "")
   ELSE IF x.kind = "sc" THEN
@@ -174,37 +174,56 @@ SMM(i, j) == Stmt("mm", i, j, "", DummyS, "", NoVal)
 SROp(op, x, i) == Stmt("rop", i, 0, op, DummyS, "", x)
 SApp(i, y) == Stmt("app", i, 0, "", DummyS, "", y)
 
-\* run state: heap of mechanism objects, addr[name] = heap address, den[name] = denotation,
-\* outI / outR = mechanism / reference result of every "app" so far, over = a pending operand was overwritten
-RS0 == [heap |-> <<>>, addr |-> <<>>, den |-> <<>>, outI |-> <<>>, outR |-> <<>>, over |-> FALSE]
-Bind(rs, heap, a, den, over) ==
-  [rs EXCEPT !.heap = heap, !.addr = Append(rs.addr, a), !.den = Append(rs.den, den), !.over = over]
+\* compact (positional) form of a program, used when programs travel as JSON between TLC and the harness
+Pack(q) ==
+  CASE q.st = "new" -> <<"new", q.s.dom, q.s.rng, q.s.ds, q.s.rs, q.mode>>
+    [] q.st = "T"   -> <<"T", q.i>>
+    [] q.st = "mm"  -> <<"mm", q.i, q.j>>
+    [] q.st = "rop" -> <<"rop", q.op, q.i, q.v.kind, q.v.fmt, q.v.val>>
+    [] q.st = "app" -> <<"app", q.i, q.v.kind, q.v.fmt, q.v.val, q.v.jac>>
+Unpack(c) ==
+  CASE c[1] = "new" -> SNew([dom |-> c[2], rng |-> c[3], ds |-> c[4], rs |-> c[5]], c[6])
+    [] c[1] = "T"   -> ST(c[2])
+    [] c[1] = "mm"  -> SMM(c[2], c[3])
+    [] c[1] = "rop" -> SROp(c[2], Val(c[4], c[6], <<>>, c[5]), c[3])
+    [] c[1] = "app" -> SApp(c[2], Val(c[3], c[5], c[6], c[4]))
+PackProg(p) == [k \in 1..Len(p) |-> Pack(p[k])]
+UnpackProg(p) == [k \in 1..Len(p) |-> Unpack(p[k])]
+
+\* run state: heap of mechanism objects, addr[name] = heap address, den[name] = denotation, taint[name] = the
+\* expression of this name attached a pending operand to an object that already carried one (the single pending
+\* slot of the mechanism then forgets the older operand); outI / outR = mechanism / reference result of every
+\* "app" so far, outT = whether the applied name was tainted
+RS0 == [heap |-> <<>>, addr |-> <<>>, den |-> <<>>, taint |-> <<>>, outI |-> <<>>, outR |-> <<>>, outT |-> <<>>]
+Bind(rs, heap, a, den, taint) ==
+  [rs EXCEPT !.heap = heap, !.addr = Append(rs.addr, a), !.den = Append(rs.den, den), !.taint = Append(rs.taint, taint)]
 HasPending(rs, i) == rs.heap[rs.addr[i]].pk # "none"
 
 Step(rs, q, copyOnMatmul) ==
   CASE q.st = "new" ->
          Bind(rs, Append(rs.heap, Obj(q.s, q.mode \in {"dom", "dominf"}, FALSE, "none", "", 0, NoVal)),
-              Len(rs.heap) + 1, <<PLayer(q.s)>>, rs.over)
+              Len(rs.heap) + 1, <<PLayer(q.s)>>, FALSE)
     [] q.st = "T" ->
          LET o == rs.heap[rs.addr[q.i]] IN
          Bind(rs, Append(rs.heap, Obj(TransposeOf(o.s), FALSE, TRUE, "none", "", 0, NoVal)),
-              Len(rs.heap) + 1, <<PLayer(TransposeOf(rs.den[q.i][1].s))>>, rs.over)
+              Len(rs.heap) + 1, <<PLayer(TransposeOf(rs.den[q.i][1].s))>>, FALSE)
     [] q.st = "mm" ->
          LET aj == rs.addr[q.j]
              oj == rs.heap[aj]
              o2 == [oj EXCEPT !.pk = "ref", !.pop = "@", !.pref = rs.addr[q.i], !.pval = NoVal]
              den == rs.den[q.j] \o rs.den[q.i]
-             over == rs.over \/ oj.pk # "none"
-         IN IF copyOnMatmul THEN Bind(rs, Append(rs.heap, o2), Len(rs.heap) + 1, den, over)
-            ELSE Bind(rs, [rs.heap EXCEPT ![aj] = o2], aj, den, over)
+             taint == rs.taint[q.i] \/ rs.taint[q.j] \/ oj.pk # "none"
+         IN IF copyOnMatmul THEN Bind(rs, Append(rs.heap, o2), Len(rs.heap) + 1, den, taint)
+            ELSE Bind(rs, [rs.heap EXCEPT ![aj] = o2], aj, den, taint)
     [] q.st = "rop" ->
          LET oi == rs.heap[rs.addr[q.i]]
              o2 == [oi EXCEPT !.pk = "val", !.pop = q.op, !.pref = 0, !.pval = q.v]
          IN Bind(rs, Append(rs.heap, o2), Len(rs.heap) + 1, Append(rs.den[q.i], LLayer(q.op, q.v)),
-                 rs.over \/ oi.pk # "none")
+                 rs.taint[q.i] \/ oi.pk # "none")
     [] q.st = "app" ->
          [rs EXCEPT !.outI = Append(@, ImplApply(rs.heap, rs.addr[q.i], q.v)),
-                    !.outR = Append(@, RefEval(rs.den[q.i], q.v))]
+                    !.outR = Append(@, RefEval(rs.den[q.i], q.v)),
+                    !.outT = Append(@, rs.taint[q.i])]
 
 RECURSIVE RunFrom(_, _, _, _)
 RunFrom(rs, prog, k, copyOnMatmul) ==
